@@ -82,6 +82,37 @@ class Topo:
     def data_conns(self):
         return [(i, c) for i, c in enumerate(self.conns) if c.get("sattr")]
 
+    def trigger_paths(self):
+        """{(q, s): [list of connection sequences]}: all simple paths from q to s along which
+        every connection ends in a trigger input (a step of q can cause a step of s)"""
+        if getattr(self, "_tpaths", None) is not None:
+            return self._tpaths
+        out = {}
+        trig = [c for c in self.conns if c.get("sattr") and self.is_trigger(c)]
+
+        def walk(path, seen):
+            last = path[-1]["dst"]
+            out.setdefault((path[0]["src"], last), []).append(list(path))
+            for c in trig:
+                if c["src"] == last and c["dst"] not in seen:
+                    walk(path + [c], seen | {c["dst"]})
+        for c in trig:
+            if c["src"] != c["dst"]:
+                walk([c], {c["src"], c["dst"]})
+        self._tpaths = out
+        return out
+
+    def earliest_trigger(self, q, s, tt):
+        """earliest integer time at which a step of q at tuple tt can trigger s (None: cannot)"""
+        best = None
+        for path in self.trigger_paths().get((q, s), []):
+            x = tt
+            for c in path:
+                x = self.arrive(c, x)
+            if best is None or x[0] < best:
+                best = x[0]
+        return best
+
     def group_reentry(self):
         """Is there a group G with a weak connection inside and two simulators of G that are
         connected by a path through a simulator outside G?  (structural classifier of F21)"""
